@@ -152,6 +152,10 @@ def cases(tier, seed):
     t = 'INPUT(a)\nINPUT(b)\nOUTPUT(q)\nOUTPUT(o)\nq = DFF(n)\nn = XOR(a, q)\no = NAND(q, b)\n'
     out.append({'k': 'bench', 'text': t, 'K': 4, 'tag': 'bench:DFF'})
     out += repo_texts()
+    # invocation scope: a sample of the texts again through the documented block= argument under a foreign working block
+    pick = [c for c in out if c['tag'] in ('hier', 'names:q_reg', 'bench:DFF', 'vector3', 'latch-shared-d', 'cell:$_DFFE_PP0P_',
+                                           'bench:XOR/2', 'hier:shift2')]
+    out += [dict(c, wb='foreign', tag=c['tag'] + ':block=') for c in pick]
     return out
 
 
@@ -195,6 +199,17 @@ def import_block(case, rec):
         rec.append((original_name, wire))
         return orig(self, original_name, wire)
     ie.Subcircuit.add_reg = add_reg
+    target = None
+    if case.get('wb') == 'foreign':
+        # the documented block= form: the netlist goes into the given block while another block is the working block
+        target = pyrtl.Block()
+        decoy = pyrtl.working_block()
+        with pyrtl.set_working_block(decoy, no_sanity_check=True):
+            x_ = pyrtl.Input(1, 'vf_decoy_in')
+            y_ = pyrtl.Output(1, 'vf_decoy_out')
+            y_ <<= ~x_
+        ndecoy = (len(decoy.logic), len(decoy.wirevector_set))
+    kwb = {'block': target} if target is not None else {}
     try:
         if case['k'] == 'blif':
             if case.get('pre'):
@@ -202,14 +217,19 @@ def import_block(case, rec):
                 pyrtl.input_from_blif(case['pre'], merge_io_vectors=case.get('merge', True))
                 pyrtl.reset_working_block()
                 del rec[:]
-            pyrtl.input_from_blif(case['text'], merge_io_vectors=case.get('merge', True))
+            pyrtl.input_from_blif(case['text'], merge_io_vectors=case.get('merge', True), **kwb)
         else:
             import io
             import contextlib
             with contextlib.redirect_stdout(io.StringIO()):
-                pyrtl.input_from_iscas_bench(case['text'])
+                pyrtl.input_from_iscas_bench(case['text'], **kwb)
     finally:
         ie.Subcircuit.add_reg = orig
+    if target is not None:
+        if (len(decoy.logic), len(decoy.wirevector_set)) != ndecoy:
+            raise pyrtl.PyrtlError('the import added hardware to the working block although block= named another block')
+        pyrtl.set_working_block(target, no_sanity_check=True)
+        return target
     return pyrtl.working_block()
 
 
